@@ -4,7 +4,8 @@ import t2t, corr, semrun, gen, impl
 
 OBLIGATIONS = ['Yalafi.C08_latexError_mark', 'Yalafi.C08_latexError_inRange', 'Yalafi.C08_lineCol', 'Yalafi.C08_scanVerb_mark', 'Yalafi.C08_scanVerbatim_mark',
                'Yalafi.C08_verb_unterminated', 'Yalafi.C08_verb_segments',
-               'Yalafi.C08_math_unterminated', 'Yalafi.C08_math_unterminated_end', 'Yalafi.C08_math_segments', 'Yalafi.C08_math_mark_complete', 'Yalafi.C08_math_text_kept', 'Yalafi.C08_math_silent', 'Yalafi.C08_math_current_facts', 'Yalafi.C08_math_ref_current', 'Yalafi.C08_math_unterminated_current', 'Yalafi.C08_math_unterminated_end_current']
+               'Yalafi.C08_math_unterminated', 'Yalafi.C08_math_unterminated_end', 'Yalafi.C08_math_segments', 'Yalafi.C08_math_mark_complete', 'Yalafi.C08_math_text_kept', 'Yalafi.C08_math_silent', 'Yalafi.C08_math_current_facts', 'Yalafi.C08_math_ref_current', 'Yalafi.C08_math_unterminated_current', 'Yalafi.C08_math_unterminated_end_current',
+               'Yalafi.C08_accent_nonletter', 'Yalafi.C08_mark_shape', 'Yalafi.C08_arg_open', 'Yalafi.C08_arg_open_footnote', 'Yalafi.C08_verbatim_unterminated', 'Yalafi.C08_skip_unclosed', 'Yalafi.C08_input_unreadable', 'Yalafi.C08_accent_current_facts', 'Yalafi.C08_accent_nonletter_current', 'Yalafi.C08_accent_eval_current', 'Yalafi.C08_arg_open_current_facts', 'Yalafi.C08_arg_open_current', 'Yalafi.C08_arg_open_footnote_current', 'Yalafi.C08_arg_open_eval_current', 'Yalafi.C08_fault_current_facts', 'Yalafi.C08_verbatim_unterminated_current', 'Yalafi.C08_skip_unclosed_current', 'Yalafi.C08_input_unreadable_current', 'Yalafi.C08_fault_eval_current']
 
 SILENT = {'c_group', 'c_unknown', 'c_vanish', 'c_ref', 'c_inline_math', 'c_verb', 'c_cite', 'c_footnote', 'c_heading', 'c_itemize',
           'c_display', 'c_env_unknown', 'c_verbatim', 'c_skip', 'c_newcommand', 'c_usermacro', 'c_special', 'c_symbol', 'c_lt',
